@@ -274,9 +274,10 @@ class HTTPURLValidator(Validator):
                 return self.note_error(element, state, "bad_format")
             required = self.required_parts.get(part)
             if required is True:
-                if value is None:
+                # a part the URL does not have is None or empty
+                if not value:
                     return self.note_error(element, state, "required_part")
-            elif required:
+            elif required is not None and required is not False:
                 if value not in required:
                     return self.note_error(element, state, "required_part")
             forbidden = self.forbidden_parts.get(part)
